@@ -106,6 +106,10 @@ def read_object(mo):
     except Exception as e:  # noqa: BLE001
         out['exposed'] = {'crash': impl.err_name(e).replace('crash:', '')}
     out['carried'] = carried
+    try:
+        out['own_document'] = stable_hash(str(mo))       # what the message object itself holds (it must not change by being merged)
+    except Exception as e:  # noqa: BLE001
+        out['own_document'] = 'str() raised ' + type(e).__name__
     buf = io.StringIO()
     import zlib
     from xml.etree import ElementTree as _ET
